@@ -876,6 +876,182 @@ fn terminal_case(ctx: &mut Ctx, s: &TS) {
         }
     }
 }
+// ---- terminals under changing topology ---------------------------------------------------------
+/// One step of a topology history on a pool of terminals.
+#[derive(Clone, Copy, Debug)]
+enum TOp {
+    Connect(usize, usize),
+    Disconnect(usize),
+    SetS(usize, Datum<State>),
+    SetC(usize, Datum<Command>),
+}
+/// Set-of-pairs model of the documented wiring: `connect(x, y)` first severs the previous links of x
+/// and of y ("will automatically disconnect the specified terminals if they are connected"), then
+/// links x--y; `disconnect(x)` severs x's link on both ends.
+struct Topo {
+    partner: Vec<Option<usize>>,
+    /// what the harness last wrote to each terminal (nothing else writes to pool terminals)
+    slots: Vec<Snap>,
+    /// terminal lost its partner because the *partner* was connected elsewhere (and has not been
+    /// connected again since)
+    rewired_away: Vec<bool>,
+    /// every terminal this one was ever linked to and no longer is
+    former: Vec<Vec<usize>>,
+}
+impl Topo {
+    fn new(n: usize) -> Topo {
+        Topo { partner: vec![None; n], slots: vec![(None, None); n], rewired_away: vec![false; n], former: vec![Vec::new(); n] }
+    }
+    fn sever(&mut self, x: usize) -> Option<usize> {
+        let p = self.partner[x]?;
+        self.partner[x] = None;
+        self.partner[p] = None;
+        self.former[x].push(p);
+        self.former[p].push(x);
+        Some(p)
+    }
+    fn apply(&mut self, op: &TOp) {
+        match *op {
+            TOp::Connect(x, y) => {
+                for z in [x, y] {
+                    if let Some(p) = self.sever(z) {
+                        if p != x && p != y {
+                            self.rewired_away[p] = true;
+                        }
+                    }
+                }
+                self.partner[x] = Some(y);
+                self.partner[y] = Some(x);
+                self.rewired_away[x] = false;
+                self.rewired_away[y] = false;
+                self.former[x].retain(|q| *q != y);
+                self.former[y].retain(|q| *q != x);
+            }
+            TOp::Disconnect(x) => {
+                self.sever(x);
+            }
+            TOp::SetS(x, d) => self.slots[x].0 = Some(d),
+            TOp::SetC(x, d) => self.slots[x].1 = Some(d),
+        }
+    }
+}
+fn topo_do<'a>(pool: &'a [Term<'a>], op: &TOp) -> Result<(), String> {
+    catch(|| match *op {
+        TOp::Connect(x, y) => connect(&pool[x], &pool[y]),
+        TOp::Disconnect(x) => pool[x].borrow_mut().disconnect(),
+        TOp::SetS(x, d) => set_state(&pool[x], d),
+        TOp::SetC(x, d) => set_command(&pool[x], d),
+    })
+}
+/// Read every terminal of the pool and judge each read against the contributors / candidates the
+/// wiring model gives it: own slot plus the slot of the terminal it is linked to *now*.
+fn topo_read_all(ctx: &mut Ctx, pool: &[Term<'_>], m: &Topo, log: &[TOp]) {
+    let n = pool.len();
+    for t in 0..n {
+        let mut sparts: Vec<Datum<State>> = m.slots[t].0.into_iter().collect();
+        let mut cparts: Vec<Datum<Command>> = m.slots[t].1.into_iter().collect();
+        if let Some(p) = m.partner[t] {
+            sparts.extend(m.slots[p].0);
+            cparts.extend(m.slots[p].1);
+        }
+        let det = || format!("read of pool terminal #{} after the steps {:?}; documented wiring now (partner of each terminal) {:?}; slots written by the harness {:?}", t, log, m.partner, m.slots);
+        let unconnected = m.partner[t].is_none();
+        // coverage strata
+        if unconnected && !m.former[t].is_empty() {
+            ctx.rep.tally("topology_reads_of_unlinked_terminal_with_former_partner");
+            if m.rewired_away[t] {
+                ctx.rep.tally("topology_reads_of_terminal_whose_partner_was_rewired_away");
+            }
+            let own_s = m.slots[t].0.map(|d| d.time.0);
+            let own_c = m.slots[t].1.map(|d| d.time.0);
+            let newer_s = m.former[t].iter().any(|&q| matches!(m.slots[q].0, Some(d) if own_s.map_or(true, |o| d.time.0 > o)));
+            let newer_c = m.former[t].iter().any(|&q| matches!(m.slots[q].1, Some(d) if own_c.map_or(true, |o| d.time.0 > o)));
+            if newer_s {
+                ctx.rep.tally("topology_unlinked_read_while_former_partner_holds_newer_state");
+            }
+            if newer_c {
+                ctx.rep.tally("topology_unlinked_read_while_former_partner_holds_newer_command");
+            }
+        }
+        if let Some(p) = m.partner[t] {
+            if !m.former[t].is_empty() || !m.former[p].is_empty() {
+                ctx.rep.tally("topology_reads_over_a_link_made_after_rewiring");
+            }
+        }
+        ctx.rep.distinct(("topology", unconnected, m.rewired_away[t], m.former[t].len().min(2), sparts.len(), cparts.len(), m.slots[t].0.is_some(), m.slots[t].1.is_some()));
+        // ---- state
+        let stamps: Vec<i64> = sparts.iter().map(|d| d.time.0).collect();
+        let got = catch(|| <Terminal<E> as Getter<State, E>>::get(&pool[t].borrow()));
+        if unconnected {
+            // a terminal that is linked to nothing has one contributor at most: its own last request;
+            // the read must be exactly that (the mean of one value is the value)
+            ctx.rep.eval();
+            let ok = match (&got, m.slots[t].0) {
+                (Ok(Ok(None)), None) => true,
+                (Ok(Ok(Some(d))), Some(o)) => dident(d, &o),
+                (Ok(Ok(Some(_))), None) | (Ok(Ok(None)), Some(_)) => false,
+                _ => true, // panic / Err are reported by `combined` below
+            };
+            if !ok {
+                ctx.rep.violation("C03/terminal-unlinked-read/state", ctx.sub, ctx.case, format!("state read {:?} of a terminal that is linked to nothing differs from its own last request {:?}; {}", got, m.slots[t].0, det()));
+            }
+        }
+        ctx.combined("Terminal::get<State>", "State", &stamps, times(got), &det);
+        // ---- command
+        let got = catch(|| <Terminal<E> as Getter<Command, E>>::get(&pool[t].borrow()));
+        ctx.selection("Terminal::get<Command>", &cparts, false, got, &det);
+        // ---- TerminalData (not named by the statement): its time must be one of the part stamps
+        let got = catch(|| <Terminal<E> as Getter<TerminalData, E>>::get(&pool[t].borrow()));
+        ctx.rep.eval();
+        match got {
+            Err(mm) => ctx.rep.violation("C03/unexpected-panic/Terminal::get<TerminalData>", ctx.sub, ctx.case, format!("{}; {}", mm, det())),
+            Ok(Err(e)) => ctx.rep.violation("C03/spurious-error/Terminal::get<TerminalData>", ctx.sub, ctx.case, format!("{:?}; {}", e, det())),
+            Ok(Ok(None)) => {}
+            Ok(Ok(Some(d))) => {
+                let all: Vec<i64> = stamps.iter().cloned().chain(cparts.iter().map(|c| c.time.0)).collect();
+                if d.time != d.value.time || !all.contains(&d.time.0) {
+                    ctx.rep.violation("C03/terminal-data-time", ctx.sub, ctx.case, format!("TerminalData datum time {:?} / inner time {:?} is not one of the part stamps {:?}; {}", d.time, d.value.time, all, det()));
+                }
+            }
+        }
+    }
+}
+/// Run a topology history: `steps(i, model)` yields the i-th step (None = end); every terminal is
+/// read and judged after every step.
+fn topo_history(ctx: &mut Ctx, n: usize, steps: &mut dyn FnMut(usize, &Topo) -> Option<TOp>) {
+    let pool: [Term<'_>; 5] = core::array::from_fn(|_| Terminal::new());
+    let pool = &pool[..n];
+    let mut m = Topo::new(n);
+    let mut log: Vec<TOp> = Vec::new();
+    let mut i = 0;
+    while let Some(op) = steps(i, &m) {
+        i += 1;
+        log.push(op);
+        let v0 = ctx.rep.violation_count;
+        if let Err(msg) = topo_do(pool, &op) {
+            ctx.rep.eval();
+            ctx.rep.violation("C03/unexpected-panic/terminal-topology", ctx.sub, ctx.case, format!("step {:?} panicked: {}; steps so far {:?}", op, msg, log));
+            return;
+        }
+        m.apply(&op);
+        ctx.rep.tally(match op {
+            TOp::Connect(x, y) => {
+                if m.former[x].is_empty() && m.former[y].is_empty() {
+                    "topology_connect_fresh"
+                } else {
+                    "topology_connect_involving_previously_linked_terminal"
+                }
+            }
+            TOp::Disconnect(_) => "topology_disconnect",
+            _ => "topology_write",
+        });
+        topo_read_all(ctx, pool, &m, &log);
+        if ctx.rep.violation_count != v0 {
+            return; // one defect, one history
+        }
+    }
+}
+
 const KINDS: [&str; 12] = [
     "Invert",
     "GearTrain",
@@ -1694,6 +1870,107 @@ fn main() {
         }
     }
 
+    // ---- 5a'. terminals under changing topology: the wiring is not set up once. Exhaustive: every
+    // sequence of 3 topology operations from {connect(0,1), connect(0,2), connect(1,2), disconnect(0),
+    // disconnect(1), disconnect(2)} on three terminals, then a strictly newer state and command is
+    // written to each terminal in turn; every terminal is read after every step and judged against
+    // the set-of-pairs wiring model (connect severs the previous links of both arguments).
+    {
+        const TOPS: [TOp; 6] = [TOp::Connect(0, 1), TOp::Connect(0, 2), TOp::Connect(1, 2), TOp::Disconnect(0), TOp::Disconnect(1), TOp::Disconnect(2)];
+        let reps = args.pick(2, 40);
+        for idx in 0..reps * 216 {
+            if !args.mine("terminal-topology", idx) {
+                continue;
+            }
+            let mut rng = Rng::new(args.seed, 316, idx);
+            let seq = [TOPS[(idx % 6) as usize], TOPS[(idx / 6 % 6) as usize], TOPS[(idx / 36 % 6) as usize]];
+            let lad = ladder(&mut rng, 12, draw_any);
+            let salt = rng.next_u64() as u32;
+            // initial writes (older stamps, random presence), then the topology ops, then the pokes
+            let mut script: Vec<TOp> = Vec::new();
+            let mut first: Vec<i64> = lad[..6].to_vec();
+            shuffle(&mut rng, &mut first);
+            for t in 0..3 {
+                if rng.chance(0.7) {
+                    script.push(TOp::SetS(t, Datum::new(Time(first[2 * t]), State::make(salt, t))));
+                }
+                if rng.chance(0.7) {
+                    script.push(TOp::SetC(t, Datum::new(Time(first[2 * t + 1]), Command::make(salt, t))));
+                }
+            }
+            script.extend(seq);
+            let mut order = [0usize, 1, 2];
+            shuffle(&mut rng, &mut order);
+            for (q, &t) in order.iter().enumerate() {
+                script.push(TOp::SetS(t, Datum::new(Time(lad[6 + 2 * q]), State::make(salt, 3 + t))));
+                script.push(TOp::SetC(t, Datum::new(Time(lad[7 + 2 * q]), Command::make(salt, 3 + t))));
+            }
+            let mut ctx = Ctx { rep: &mut rep, sub: "terminal-topology", case: idx, vkey: ("", "", "") };
+            topo_history(&mut ctx, 3, &mut |i, _| script.get(i).copied());
+            if idx % 216 == 37 && rep.want_sample("terminal-topology") {
+                rep.sample("terminal-topology", format!("{:?}", script));
+            }
+        }
+        rep.exhaustive("terminal topology: all 216 sequences of three operations from {connect(0,1), connect(0,2), connect(1,2), disconnect(0), disconnect(1), disconnect(2)} on three terminals, each followed by strictly newer state+command writes to every terminal, all terminals read after every step");
+    }
+    // random longer histories on 3..=5 terminals: connect (also of already linked terminals and of the
+    // same pair again), disconnect, writes with mostly newer stamps; all terminals read after every step
+    for case in args.cases("terminal-topology-random", 3_000, 250_000) {
+        let mut rng = Rng::new(args.seed, 317, case);
+        let n = 3 + rng.usize(3);
+        let steps = 8 + rng.usize(7);
+        let lad = ladder(&mut rng, steps + 1, draw_any);
+        let salt = rng.next_u64() as u32;
+        let mut next = 0usize;
+        let mut last_pair: Option<(usize, usize)> = None;
+        let mut script: Vec<TOp> = Vec::new();
+        let mut ctx = Ctx { rep: &mut rep, sub: "terminal-topology-random", case, vkey: ("", "", "") };
+        {
+            let script = &mut script;
+            let rng = &mut rng;
+            topo_history(&mut ctx, n, &mut |i, m| {
+                if i >= steps {
+                    return None;
+                }
+                let op = match rng.below(20) {
+                    0..=6 => {
+                        // connect: a random pair, the same pair again, or deliberately a terminal that is linked
+                        let (x, y) = match (rng.below(4), last_pair) {
+                            (0, Some(p)) => p,
+                            (1, _) => {
+                                let linked: Vec<usize> = (0..n).filter(|&t| m.partner[t].is_some()).collect();
+                                let x = if linked.is_empty() { rng.usize(n) } else { *rng.pick(&linked) };
+                                (x, (x + 1 + rng.usize(n - 1)) % n)
+                            }
+                            _ => {
+                                let x = rng.usize(n);
+                                (x, (x + 1 + rng.usize(n - 1)) % n)
+                            }
+                        };
+                        last_pair = Some((x, y));
+                        TOp::Connect(x, y)
+                    }
+                    7..=9 => TOp::Disconnect(rng.usize(n)),
+                    k => {
+                        let t = rng.usize(n);
+                        let stamp = if next > 0 && rng.chance(0.15) { lad[rng.usize(next)] } else { lad[next] };
+                        next += 1;
+                        if k % 2 == 0 {
+                            TOp::SetS(t, Datum::new(Time(stamp), State::make(salt, i % 8)))
+                        } else {
+                            TOp::SetC(t, Datum::new(Time(stamp), Command::make(salt, i % 8)))
+                        }
+                    }
+                };
+                script.push(op);
+                Some(op)
+            });
+        }
+        if rep.want_sample("terminal-topology-random") {
+            rep.sample("terminal-topology-random", format!("{} terminals: {:?}", n, script));
+        }
+    }
+
     // ---- 5b. devices, one update: random scenario (distinct / tied / clustered-extreme stamps on
     // every terminal slot; device updates only compare stamps)
     for case in args.cases("device", 12 * 3_000, 12 * 250_000) {
@@ -1816,6 +2093,13 @@ fn main() {
     rep.floor("terminal_state_one_part", 1_000);
     rep.floor("terminal_command_two_parts", 1_000);
     rep.floor("terminal_command_one_part", 1_000);
+    rep.floor("topology_connect_involving_previously_linked_terminal", 1_000);
+    rep.floor("topology_disconnect", 1_000);
+    rep.floor("topology_reads_of_unlinked_terminal_with_former_partner", 2_000);
+    rep.floor("topology_reads_of_terminal_whose_partner_was_rewired_away", 1_000);
+    rep.floor("topology_unlinked_read_while_former_partner_holds_newer_state", 500);
+    rep.floor("topology_unlinked_read_while_former_partner_holds_newer_command", 500);
+    rep.floor("topology_reads_over_a_link_made_after_rewiring", 1_000);
     rep.floor("device_state_writes_checked", 3_000);
     rep.floor("device_state_one_sided_propagation", 100);
     rep.floor("device_command_writes_checked", 1_000);
